@@ -62,4 +62,6 @@ ProtoFails(o) ==
                 firstP == IF rest = 0 THEN <<>> ELSE RunsNth(o.pr, k)
             IN mx[2] = rest /\ mx[3] = lastP /\ mx[4] = rest /\ mx[5] = firstP /\ mx[6] = lastP /\ mx[7] = rest
         THEN {} ELSE {"rest_after_next_differs"})
+  \* indices >= 2^32 (see EGGeom!SeqProtoFails)
+  \cup (IF \A j \in 1..Len(q.huge) : q.huge[j][3] = 0 /\ q.huge[j][4] = 0 THEN {} ELSE {"index_beyond_2_32_wraps_into_the_sequence"})
 =============================================================================
